@@ -40,7 +40,9 @@ def check_cfg(ctx, fx, cfg):
         sty = t["argtys"][ai] if (len(t["argtys"]) > ai and not aproj) else ("S" if aproj else "")
         mop = graph.maker_operand(t, makers)
         rs = roots(gb, mop) if mop is not None else set()
-        ok = bool(rs) and all(r.kind == "arg" for r in rs) and sty in ("S", "T")
+        # (in the body of an `async fn` the function's own parameters are the coroutine's captures)
+        own_upvar = g["kind"] == "coroutine" and (fx.fn(g.get("parent") or "") or {}).get("is_async")
+        ok = bool(rs) and all(r.kind == "arg" or (own_upvar and r.kind == "upvar") for r in rs) and sty in ("S", "T")
         ctx.require(ok, "R13.6", "stream-handed-over-unwrapped:%s@%s" % (g["def"], cfg), "the stream given to the loop is not the caller's own stream parameter (type %s, roots %s)" % (sty[:60], sorted(map(str, rs))), fn=g["def"], site=t["l"])
     # counted: Environment::launch_on_stream + the two builder / spawner terminals; the latter are gated on a runtime feature
     # (every caller is judged; terminals sharing a helper lower the count, so the floor only guards against vacuity)
